@@ -84,7 +84,7 @@ func main() {
 	rng := hlib.NewRng(f.Seed)
 	rep := hlib.NewReport("C14", "generated well-formed objects/messages and mutated encodings through the real encoders and decoders; "+
 		"non-trivial = the object has at least one optional field present-and-zero/empty, a repeated field with >1 element, a nested message, or a boundary integer (distinct by kind/name/shape fingerprint)")
-	cw := hlib.NewCaseWriter(f.Out, "From Coq Require Import List NArith Bool.\nFrom GQ Require Import Lib.Key Lib.C14_Varint Lib.C14_ProtoWire Lib.C14_RLP Model.C14.\nImport ListNotations.\nLocal Open Scope N_scope.\n", "C14.case", 40)
+	cw := hlib.NewCaseWriter(f.Out, "From Coq Require Import List NArith Bool.\nFrom GQ Require Import Lib.Key Lib.C14_Varint Lib.C14_ProtoWire Lib.C14_RLP Model.C14.\nImport ListNotations.\nLocal Open Scope N_scope.\n", "C14.case", 60)
 	c := &ctx{rep: rep, cw: cw, msgs: c14schema.Load()}
 	gens := allGens(c)
 	byKind := map[string]*gen{}
